@@ -361,6 +361,12 @@ func (s Server) Serve(c context.Context, conn network.Conn) (err error) {
 			reqBodyStream = ctx.RequestBodyStream()
 		}
 
+		// the answer to HEAD has no body: said before the handler runs, for a body
+		// writer the handler installs (it writes while the handler is running)
+		if ctx.IsHead() {
+			ctx.Response.SkipBody = true
+		}
+
 		// Handle the request
 		//
 		// NOTE: All middlewares and business handler will be executed in this. And at this point, the request has been parsed
